@@ -29,6 +29,10 @@ def gen_dag(rng):
             ps = [commits[-1]] + ([commits[-3]] if len(commits) >= 3 and i % 2 else [])
         else:
             ps = rng.sample(commits, min(len(commits), rng.choice([1, 1, 2, 3])))
+        if ps and rng.random() < 0.12:
+            # the same parent named twice, next to each other or with another parent in between (git accepts such commits;
+            # fast-import writes one when `merge :N` repeats `from :N`): the chain lengths do not change
+            ps = list(ps) + [ps[0]] if rng.random() < 0.5 else [ps[-1]] + list(ps)
         # timestamps unrelated to the topology: children may be much older than parents
         date = rng.choice([1, 10, 10**9, 10**9 + i, 2 * 10**9 - i, rng.randrange(1, 2 * 10**9)])
         # a merged signed tag leaves a mergetag header whose continuation lines may quote `parent <id>` of ANY commit: the
